@@ -1,5 +1,6 @@
 import CssVerif.Lemmas.Profiles
 import CssVerif.Lemmas.MacroRank
+import CssVerif.Lemmas.MacroHist
 import CssVerif.Lemmas.ProfilesSpec
 import CssVerif.Gen.C14Profiles
 /-!
@@ -363,6 +364,52 @@ theorem builtin_never_diverges (v : Str) (f : Nat) (hf : Gen.C14.envLit.length +
     expandValue Gen.C14.envLit f v ≠ .error .diverges :=
   acyclicB_terminates Gen.C14.envLit builtin_acyclic f hf v
 
+/-! ### T14.6 along histories
+
+`RankedAll rk m`: every entry of a macro table uses lower-ranked macros only; `RankedOp rk op`: the macros the operation
+brings are such tables; `Bounded rk fuel`: every rank is below the fuel. -/
+
+/-- **no operation of a history answers "still running"**: when the base macros, the macros of the built-in tables
+and the macros of every operation of the history respect one rank function whose ranks are below the fuel, the
+constructor and every operation of the history end (they go through, or raise `KeyError` /
+`NoSuchProfileException` / `ValueError`) — whatever the names, properties, order and interleaving -/
+theorem history_never_diverges (rk : Str → Nat) (cfg : Cfg) (hb : Bounded rk cfg.fuel) (hbase : RankedAll rk cfg.base)
+    (builtins : List ProfileDef) (hl : ∀ d ∈ builtins, optRanked rk d.macros) (ops : List Op)
+    (hops : ∀ op ∈ ops, RankedOp rk op) :
+    (init cfg builtins).2 ≠ some .diverges ∧
+    ∀ pre op post, ops = pre ++ op :: post →
+      (step cfg (run cfg (init cfg builtins).1 pre) op).2 ≠ some .diverges :=
+  ⟨init_nodiv hb hbase builtins hl,
+   (run_nodiv hb (init cfg builtins).1 (init_good hbase builtins hl) ops hops).2⟩
+
+set_option maxRecDepth 100000 in
+/-- the ranks the cycle check finds for the built-in macro environment fit every entry of the base macros … -/
+theorem builtin_base_ranked : rankedAllB (rankFn Gen.C14.envLit) Gen.C14.base = true := by decide +kernel
+
+set_option maxRecDepth 100000 in
+/-- … and every entry of the macros of the built-in tables (also entries that a later table overrides) -/
+theorem builtin_macros_ranked :
+    Gen.C14.builtins.all (fun d => rankedAllB (rankFn Gen.C14.envLit) (d.macros.getD [])) = true := by
+  decide +kernel
+
+/-- from `Profiles()`, with the fuel of the driver: a history whose operations bring macros that fit the ranks of
+the built-in macros never makes an operation run on -/
+theorem builtin_histories_never_diverge (ops : List Op)
+    (hops : ∀ op ∈ ops, RankedOp (rankFn Gen.C14.envLit) op) (pre : List Op) (op : Op) (post : List Op)
+    (h : ops = pre ++ op :: post) :
+    (step Gen.C14.cfg (run Gen.C14.cfg (init Gen.C14.cfg Gen.C14.builtins).1 pre) op).2 ≠ some .diverges :=
+  (history_never_diverges (rankFn Gen.C14.envLit) Gen.C14.cfg
+    (bounded_rankFn Gen.C14.envLit Gen.C14.cfg.fuel (by decide +kernel))
+    (rankedAllB_spec _ _ builtin_base_ranked) Gen.C14.builtins
+    (fun d hd => rankedAllB_spec _ _ (List.all_eq_true.mp builtin_macros_ranked d hd)) ops hops).2 pre op post h
+
+/-- in particular every history of operations that bring no macros at all (additions and replacements without
+macros, bulk adds without macros, removals, remove-all, default assignments) -/
+theorem builtin_plain_histories_never_diverge (ops : List Op) (hops : ∀ op ∈ ops, op.noMacros)
+    (pre : List Op) (op : Op) (post : List Op) (h : ops = pre ++ op :: post) :
+    (step Gen.C14.cfg (run Gen.C14.cfg (init Gen.C14.cfg Gen.C14.builtins).1 pre) op).2 ≠ some .diverges :=
+  builtin_histories_never_diverge ops (fun o ho => rankedOp_of_noMacros _ o (hops o ho)) pre op post h
+
 /-! ## the histories that exposed the four repaired defects, re-checked on the model of the repaired code
 
 A tiny configuration: one base macro `c ↦ "r"`. Names `A B X U` = `[65] [66] [88] [85]`, property `x` = `[120]`,
@@ -453,5 +500,23 @@ example : (∀ n ∈ phNames [123, 97, 125], definedDeep [([97], [123, 98, 125, 
 example : subPass [([97], [123, 98, 125, 120]), ([98], [121])] [123, 97, 125] = .ok [40, 63, 58, 123, 98, 125, 120, 41] ∧
     hasPh [123, 97, 125] = true :=
   ⟨rfl, by decide⟩
+
+/-- the premises of `history_never_diverges` together: base macro `c ↦ "r"`, an addition with the macro `m ↦ "{c}"`
+(rank 1 above `c`), a fuel of 4 -/
+example : ∃ rk : Str → Nat, Bounded rk wcfg.fuel ∧ RankedAll rk wcfg.base ∧
+    RankedOp rk (.add [65] xc (some [([109], [123, 99, 125])])) := by
+  refine ⟨fun k => if k = [109] then 1 else 0, fun k => ?_, ?_, ?_⟩
+  · show (if k = [109] then 1 else 0) < 4
+    split <;> omega
+  · exact rankedAllB_spec _ _ (by decide)
+  · exact rankedAllB_spec _ _ (by decide)
+
+/-- `Op.noMacros` has instances of every kind -/
+example : (Op.add [65] xc none).noMacros ∧ (Op.addMany [{ name := [66], props := xc, macros := none }]).noMacros ∧
+    (Op.remove (some [65])).noMacros := by
+  refine ⟨⟨rfl, rfl⟩, ?_, trivial⟩
+  intro d hd
+  simp only [List.mem_singleton] at hd
+  subst hd; rfl
 
 end CssVerif.C14
